@@ -113,10 +113,12 @@ func NewFilterFS(fs FS, opt *FilterOpt) (FS, error) {
 	// is a path that the matcher reads byte for byte, so that directories
 	// can be pruned by comparing them with its text. The expression scanner
 	// of the matcher drops a leading byte order mark and replaces invalid
-	// UTF-8: such a pattern does not match the text it spells.
+	// UTF-8: such a pattern does not match the text it spells. A pattern
+	// that spells U+FFFD itself matches, once compiled to a regular
+	// expression, every invalid byte of a path.
 	plainPrefix := func(p *patternmatcher.Pattern) bool {
 		s := patternWithoutTrailingGlob(p)
-		return !strings.ContainsAny(s, patternChars) && !strings.HasPrefix(s, "\ufeff") && utf8.ValidString(s)
+		return !strings.ContainsAny(s, patternChars) && !strings.HasPrefix(s, "\ufeff") && utf8.ValidString(s) && !strings.ContainsRune(s, utf8.RuneError)
 	}
 
 	var (
